@@ -124,14 +124,14 @@ func condWaitStates(c *Ctx, fn *ssa.Function) map[ssa.Instruction]StateSet {
 		return false
 	}
 	pkg := fn.Pkg
-	pf := &PF{N: 32, DeepVisit: true, InScope: func(f *ssa.Function) bool { return rootFn(f).Pkg == pkg && f.Blocks != nil && f != fn }}
+	pf := &PF{N: 32, DeepVisit: true, InScope: func(f *ssa.Function) bool { return (rootFn(f).Pkg == pkg || c.inModule(f)) && f.Blocks != nil && f != fn }}
 	pf.Instr = func(f *ssa.Function, in ssa.Instruction, q int) (StateSet, bool) {
 		switch x := in.(type) {
 		case *ssa.UnOp:
 			if x.Op == token.MUL && isCondChanFieldAddr(c, x.X) && q&cUNL == 0 && lockedAt(x) {
 				return ss(q | cSNAP), true
 			}
-			if x.Op == token.ARROW && chanElemIsEmptyStruct(x.X.Type()) && q&cUNL != 0 {
+			if x.Op == token.ARROW && q&cUNL != 0 {
 				if _, isCtx := ctxDoneOf(x.X); !isCtx {
 					return ss(q | cWOKE), true
 				}
@@ -172,7 +172,7 @@ func condWaitStates(c *Ctx, fn *ssa.Function) map[ssa.Instruction]StateSet {
 		if _, isCtx := ctxDoneOf(sel.States[idx].Chan); isCtx {
 			return ss(q | cCTX), true
 		}
-		if chanElemIsEmptyStruct(sel.States[idx].Chan.Type()) && q&cUNL != 0 {
+		if q&cUNL != 0 {
 			return ss(q | cWOKE), true
 		}
 		return 0, false
@@ -202,7 +202,7 @@ func ruleCondSnapshot(c *Ctx, r *R) {
 	// (a) identity: every channel Wait blocks on (other than ctx.Done()) is a value of the cond's channel field
 	n := 0
 	seenFn := map[*ssa.Function]bool{}
-	for _, di := range deepInstrs(fn, 3) {
+	for _, di := range deepInstrsScope(fn, 3, nil, c.inModule) {
 		f := di.in.Parent()
 		if seenFn[f] {
 			continue
@@ -303,6 +303,23 @@ func ruleCondLockState(c *Ctx, r *R) {
 		if call, ok := res.(*ssa.Call); ok && call.Call.IsInvoke() && call.Call.Method.Name() == "Err" {
 			isCtxErr = true
 		}
+		// the error result of a module helper that receives under a context (chans.RecvContext): every non-nil error it can
+		// return must be ctx.Err() of its ctx.Done() arm
+		if call, ridx := resultCall(res); call != nil && !isCtxErr {
+			if cal := staticCallee(&call.Call); cal != nil && cal.Blocks != nil && c.inModule(cal) {
+				n, all := 0, true
+				for _, rv := range returnedBy(cal, ridx) {
+					if isNilConst(rv) {
+						continue
+					}
+					n++
+					if !isCtxErrAfterDone(rv) {
+						all = false
+					}
+				}
+				isCtxErr = n > 0 && all
+			}
+		}
 		inCtx, woke, relocked, unlocked := true, false, false, true
 		rs.st.each(func(q int) {
 			if q&cCTX == 0 {
@@ -334,51 +351,66 @@ func ruleBroadcastOrder(c *Ctx, r *R) {
 		r.undecided("xsync.ContextCond.Broadcast|missing", token.NoPos, "anchor not found")
 		return
 	}
-	_, chF, muF := condOwner(c)
-	var cl, st ssa.Instruction
-	var site ssa.Instruction
-	for _, d := range deepInstrs(fn, 2) {
+	_, _, muF := condOwner(c)
+	var cl, st *deepInstr
+	deep := deepInstrs(fn, 2)
+	// the frames of the deep view: function -> a deep instruction of it (for lock questions about values loaded there)
+	frameOf := map[*ssa.Function]deepInstr{}
+	for _, d := range deep {
+		if _, ok := frameOf[d.in.Parent()]; !ok {
+			frameOf[d.in.Parent()] = d
+		}
+	}
+	closedUnderLock := true
+	for i := range deep {
+		d := deep[i]
 		switch x := d.in.(type) {
 		case *ssa.Call:
 			if bi, ok := x.Call.Value.(*ssa.Builtin); ok && bi.Name() == "close" {
 				good := true
+				under := true
 				for _, lf := range valueLeaves(x.Call.Args[0], d.calls, 0) {
-					if ld, ok := lf.v.(*ssa.UnOp); !ok || !isCondChanFieldAddr(c, ld.X) {
+					ld, ok := lf.v.(*ssa.UnOp)
+					if !ok || !isCondChanFieldAddr(c, ld.X) {
 						good = false
+						continue
+					}
+					// the channel that is closed must have been read under the write lock too
+					if fr, ok := frameOf[ld.Parent()]; ok {
+						if !deepLocks(fn, deepInstr{in: ld, site: fr.site, calls: fr.calls}).heldSuffix(muF, true) {
+							under = false
+						}
 					}
 				}
 				if good {
-					cl, site = x, d.site
+					cl = &deep[i]
+					closedUnderLock = under
 				}
 			}
 		case *ssa.Store:
 			if isCondChanFieldAddr(c, x.Addr) {
 				for _, v := range throughHelper(x.Val) {
 					if _, isMk := v.(*ssa.MakeChan); isMk {
-						st = x
+						st = &deep[i]
 					}
 				}
 			}
 		}
 	}
-	_ = chF
-	good := cl != nil && st != nil && cl.Parent() == st.Parent() && cl.Block() == st.Block() && idxIn(cl) < idxIn(st)
+	good := cl != nil && st != nil
 	if good {
-		f := cl.Parent()
-		held := locksIn(f, lockset{})
-		w := func(in ssa.Instruction) bool {
-			for lk, m := range held[in] {
-				if strings.HasSuffix(lk, "."+muF) && m == 'W' {
-					return true
-				}
-			}
-			return false
+		// both unconditional (entry block of their own function, reached from the entry block of Broadcast), close first
+		uncond := func(d *deepInstr) bool {
+			return d.in.Block() == d.in.Parent().Blocks[0] && d.site.Block() == fn.Blocks[0]
 		}
-		good = w(cl) && w(st) && cl.Block() == f.Blocks[0] && site.Block() == fn.Blocks[0]
-		// the channel that is closed must have been read under the lock too
-		if ld, ok := resolveVal(cl.(*ssa.Call).Call.Args[0]).(*ssa.UnOp); ok && ld.Parent() == f && !w(ld) {
-			good = false
+		before := false
+		if cl.in.Parent() == st.in.Parent() && len(cl.calls) == len(st.calls) {
+			before = cl.in.Block() == st.in.Block() && idxIn(cl.in) < idxIn(st.in)
+		} else {
+			before = cl.site.Block() == st.site.Block() && idxIn(cl.site) < idxIn(st.site)
 		}
+		good = uncond(cl) && uncond(st) && before && closedUnderLock &&
+			deepLocks(fn, *cl).heldSuffix(muF, true) && deepLocks(fn, *st).heldSuffix(muF, true)
 	}
 	r.ok(good, "xsync.ContextCond.Broadcast|close-then-replace", fn.Pos(), "Broadcast must close the current channel (waking every waiter that snapshotted it) and then install a fresh one, both while holding the cond's mutex for writing")
 }
